@@ -130,7 +130,18 @@ def parse_functions(text):
     n = len(lines)
     while i < n:
         ln = lines[i]
-        m1 = re.match(r"(?:const|static(?: mut)?) (.*?): (.*?) = const (.*);$", ln)
+        m1 = None
+        if (ln.startswith("const ") or ln.startswith("static ")) and ln.endswith(";") and " = const " in ln:
+            head, val = ln.rsplit(" = const ", 1) if ln.count(" = const ") == 1 else ln.split(" = const ", 1)
+            head = re.sub(r"^(?:const|static(?: mut)?) ", "", head)
+            k = head.rfind(": ")
+            # the type never contains ': ' for the scalar / &str / array constants of this crate, the name may (impl spans)
+            class _M:
+                def __init__(s, a, b, c):
+                    s.g = (a, b, c)
+                def group(s, i):
+                    return s.g[i - 1]
+            m1 = _M(head[:k], head[k + 2:], val[:-1])
         if m1:
             f = Function(m1.group(1), [], m1.group(2), ["    bb0: {", "        _0 = const %s;" % m1.group(3), "        return;", "    }"], ln)
             consts[m1.group(1)] = f
